@@ -84,7 +84,8 @@ def gen(rng, k):
     no_addr = bypass and rng.random() < 0.4
     stacks = [dict(dll='j1939-21', max_cmdt=3, subs=[], cas=[dict(name=nameX, addr=(None if no_addr else pref), bypass=bypass, subs=[1], req=[2])])]
     script = []
-    started = (not bypass) and rng.random() < 0.85
+    # (a CA created with claiming bypassed may be started all the same — later, when contenders have already been heard)
+    started = ((not bypass) and rng.random() < 0.85) or (bypass and not no_addr and rng.random() < 0.5)
     t_start = rng.choice([1000, 300000])
     delay = rng.choice([0, 1000, 250000, 600000])
     if started:
@@ -118,8 +119,14 @@ def gen(rng, k):
             script.append(dict(t=t, s=0, op='ca_send_message', ca=0, a=[rng.choice([6, 6, 3, rng.randint(0, 7)]), rng.choice([0xFECA, 0xFECA, 0xEEFF, 0xD055, 0x1FFFF]), dict(seed=rng.getrandbits(20), len=rng.randint(0, 8))]))
         else:
             script.append(dict(t=t, s=0, op='ca_request', ca=0, a=[rng.choice([0, 0, 1]), rng.choice([0xEE00, 0xEE00, 0xFECA, 0x3FFFF, 0, 0x1EE00, 0x2EE00, 0x3EE00, 0xEEFF, 0xEE30]), rng.choice([255, 0x30, pref])]))
+    if rng.random() < 0.3:
+        # a service built on the CA: cyclic DM1 — it must neither send from an address the CA does not hold nor take the ECU's
+        # background thread down when it cannot send
+        script.append(dict(t=rng.choice([100, t_start + delay + 260000, 1000000]), s=0, op='dm1_start', ca=0, cycle=rng.choice([50000, 100000, 330000])))
     script.sort(key=lambda e: e['t'])
     sc = dict(stacks=stacks, lat=[rng.choice([0, 1, 5000])], jit=[1], script=script, horizon=5_000_000)
+    if any(e['op'] == 'dm1_start' for e in script):
+        sc['oracle_only'] = True          # the diagnostic classes are not part of the stack model
     if rng.random() < 0.35:
         # another thread of the application sends while one of the CA's address-claim / cannot-claim frames is being handed to the bus
         ops = []
